@@ -682,6 +682,25 @@ pub fn long_doc(shape: &str, n: usize) -> Vec<u8> {
     .into_bytes()
 }
 
+/// Documents whose length sits just past a buffer-size boundary, with every kind of token
+/// straddling the boundary in turn: `unit` (a run of tokens of all kinds) is repeated behind
+/// `shift` bytes of padding until the text is a little longer than `boundary`, then `tail` closes it.
+pub fn boundary_doc(head: &str, unit: &str, tail: &str, pad: u8, boundary: usize, shift: usize) -> Vec<u8> {
+    let mut s: Vec<u8> = Vec::with_capacity(boundary + 2 * unit.len() + 64);
+    s.extend_from_slice(head.as_bytes());
+    s.extend(std::iter::repeat(pad).take(shift));
+    while s.len() < boundary + 24 {
+        s.extend_from_slice(unit.as_bytes());
+    }
+    s.extend_from_slice(tail.as_bytes());
+    s
+}
+
+pub const BOUNDARIES: &[usize] = &[1024, 4096, 8192, 16384, 65536];
+pub const FILTER_UNIT: &str = "x < 10 and d >= 2021-01-01 and r == @ref1 and t > 12:30:00 and n <= -1.5e3 and s == \"str\" and u != `u` and q->w or ";
+pub const ZINC_LIST_UNIT: &str = "1, 2021-01-01, @r \"d\", -INF, 1e5, \"s\\u00e9\", `u`, 12:00:00, 2021-01-01T00:00:00Z UTC, 2021-01-01T00:00:00-05:00 New_York, C(1,2), Bin(\"x\"), ^sym, NA, -1.5kW, ";
+pub const ZINC_ROW_UNIT: &str = "1,2021-01-01,@r \"d\",-INF\n1e5,\"s\",`u`,12:00:00\n2021-01-01T00:00:00Z UTC,C(1,2),Bin(\"x\"),^sym\n";
+
 /// Pure nesting ladder documents for the stack-depth dimension.
 pub fn nest_doc(shape: &str, depth: usize, closed: bool) -> Vec<u8> {
     let mut s = Vec::new();
